@@ -167,98 +167,32 @@ def one_workspace(ctx, root, docs, files, feats):
         all_usage_spans = {p: [dict(u) for u in d.m.usages] for p, d in docs.items()}
         def_lines = {p: {dd["line"] for dd in d.m.defs} for p, d in docs.items()}
         for p, d in docs.items():
-            before = srv.seq
-            srv.did_open(p, d.text)
-            diags = srv.wait_diagnostics(p, before, timeout=30)
-            if diags is None:
-                raise Inconclusive("no diagnostics published")
-            # --- diagnostics --------------------------------------------------------------------------
-            names = body_name_spans(d)
-            seen = set()
-            for dg in diags:
-                if not structural(ctx, d, dg["range"], "diagnostic:" + str(dg.get("code")), files):
-                    continue
-                key = (dg.get("code"), str(dg["range"]), dg["message"])
-                if key in seen:
-                    ctx.violation({"kind": "duplicate-diagnostic"}, {"diag": dg}, files=files)
-                seen.add(key)
-                if dg.get("code") == "undeclared-fixture":
-                    token_match(ctx, d, dg["range"], names, "diagnostic:undeclared", files)
-                    ctx.nontrivial(("diag_undeclared",))
-                else:
-                    token_match(ctx, d, dg["range"], [dd["name_span"] | {"line": dd["line"]} for dd in d.m.defs if dd["name_span"]],
-                                "diagnostic:" + str(dg.get("code")), files)
-            # --- documentSymbol -------------------------------------------------------------------------
-            r = srv.document_symbol(p)
-            syms = r.get("result") or []
-            lst = [(s_["name"], str(s_["range"])) for s_ in syms]
-            if len(lst) != len(set(lst)):
-                ctx.violation({"kind": "duplicate-symbols"}, {"symbols": lst}, files=files)
-            for s_ in syms:
-                if structural(ctx, d, s_["range"], "documentSymbol.range", files) and \
-                        structural(ctx, d, s_["selectionRange"], "documentSymbol.selectionRange", files):
-                    ctx.judged()
-                    if not inside(s_["selectionRange"], s_["range"]):
-                        sl = s_["range"]["start"]["line"]
-                        if s_["range"]["end"]["line"] == sl and s_["range"]["end"]["character"] == 0 and ctx.known(KF_SYM_1LINE):
-                            pass
-                        else:
-                            ctx.violation({"kind": "selectionRange-outside-range", "what": "documentSymbol"}, {"symbol": s_}, files=files)
-                    token_match(ctx, d, s_["selectionRange"], [dd["name_span"] | {"line": dd["line"]} for dd in d.m.defs if dd["name_span"]],
-                                "documentSymbol.selectionRange", files)
-            # --- codeLens ----------------------------------------------------------------------------------
-            r = srv.code_lens(p)
-            for l_ in (r.get("result") or []):
-                structural(ctx, d, l_["range"], "codeLens", files)
-                ctx.judged()
-                if l_["range"]["start"]["line"] + 1 not in def_lines[p]:
-                    ctx.violation({"kind": "code-lens-not-on-definition-line"}, {"lens": l_}, files=files)
-            # --- inlay hints ---------------------------------------------------------------------------------
-            r = srv.inlay_hint(p)
-            for h in (r.get("result") or []):
-                pos = h["position"]
-                rr = {"start": pos, "end": pos}
-                if not structural(ctx, d, rr, "inlayHint.position", files):
-                    continue
-                ends = []
-                for u in d.m.usages:
-                    e_ = {"line": u["line"], "start_u16": u["end_u16"], "end_u16": u["end_u16"], "start_b": u["end_b"], "end_b": u["end_b"]}
-                    if u.get("string"):
-                        # anchor after the string content; the literal-geometry finding applies to its end as well
-                        e_.update({"string": True, "plain_string": u.get("plain_string", True), "exact_span": u.get("exact_span", True),
-                                   "node_start_b": u["node_end_b"] - 2, "node_end_b": u["node_end_b"], "node_end_line": u.get("node_end_line")})
-                    ends.append(e_)
-                token_match(ctx, d, rr, ends, "inlayHint.position", files)
-                ctx.nontrivial(("inlay",))
-            # --- references / hierarchy from every definition and usage --------------------------------------
-            for dd in d.m.defs:
-                if not dd["name_span"]:
-                    continue
-                col = dd["name_span"]["start_b"]     # cursor columns are interpreted by the server as it sees fit
-                refs_and_hierarchy(ctx, srv, d, docs, p, dd["line"] - 1, col, all_usage_spans, def_lines, files)
-            for u in d.m.usages[:12]:
-                if d.has_non_ascii_before(u["line"], u["start_b"]):
-                    continue
-                r = srv.definition(p, u["line"] - 1, u["start_b"])
-                res = r.get("result")
-                if res:
-                    res = res[0] if isinstance(res, list) else res
-                    tp = uri_to_path(res["uri"])
-                    ctx.judged()
-                    if tp in docs:
-                        structural(ctx, docs[tp], res["range"], "definition.target", files)
-                        if res["range"]["start"]["line"] + 1 not in def_lines[tp]:
-                            ctx.violation({"kind": "definition-target-not-on-def-line"}, {"target": res}, files=files)
-                r = srv.implementation(p, u["line"] - 1, u["start_b"])
-                res = r.get("result")
-                if res:
-                    res = res[0] if isinstance(res, list) else res
-                    tp = uri_to_path(res["uri"])
-                    ctx.judged()
-                    if tp in docs:
-                        ok_lines = def_lines[tp] | {x["yield_line"] for x in docs[tp].m.defs if x["yield_line"]}
-                        if res["range"]["start"]["line"] + 1 not in ok_lines:
-                            ctx.violation({"kind": "implementation-target-not-on-def-or-yield-line"}, {"target": res}, files=files)
+            check_doc(ctx, srv, p, d, docs, files, all_usage_spans, def_lines, first=True)
+        # same-length re-analysis: swap a blank line with its non-blank neighbour (byte length unchanged,
+        # newline offsets moved) and judge every position again on the new text
+        for p in list(docs):
+            d = docs[p]
+            ls = d.text.split("\n")
+            idx = [i for i in range(len(ls) - 1) if ls[i].strip() == "" and ls[i + 1].strip() != "" and not ls[i + 1].startswith((" ", "\t", ")"))
+                   and (i == 0 or not ls[i - 1].rstrip().endswith(("(", ",", "\\")))]
+            if not idx:
+                continue
+            i = ctx.rng.choice(idx)
+            ls[i], ls[i + 1] = ls[i + 1], ls[i]
+            nt = "\n".join(ls)
+            try:
+                compile(nt, "<src>", "exec", dont_inherit=True)
+            except Exception:
+                continue
+            nd = Doc(p, nt)
+            if not nd.m.ok or len(nt.encode()) != len(d.text.encode()):
+                continue
+            docs[p] = nd
+            files = dict(files); files[os.path.basename(p)] = nt
+            all_usage_spans[p] = [dict(u) for u in nd.m.usages]
+            def_lines[p] = {dd["line"] for dd in nd.m.defs}
+            check_doc(ctx, srv, p, nd, docs, files, all_usage_spans, def_lines, first=False)
+            ctx.nontrivial(("same_length_reanalysis",))
         # --- workspace symbols --------------------------------------------------------------------------------
         r = srv.workspace_symbol("")
         syms = r.get("result") or []
@@ -280,6 +214,102 @@ def one_workspace(ctx, root, docs, files, feats):
         srv.shutdown()
         if un:
             raise Inconclusive("server stopped answering (C11 territory)")
+
+
+def check_doc(ctx, srv, p, d, docs, files, all_usage_spans, def_lines, first=True):
+    if True:
+        before = srv.seq
+        (srv.did_open if first else srv.did_change)(p, d.text)
+        diags = srv.wait_diagnostics(p, before, timeout=30)
+        if diags is None:
+            raise Inconclusive("no diagnostics published")
+        # --- diagnostics --------------------------------------------------------------------------
+        names = body_name_spans(d)
+        seen = set()
+        for dg in diags:
+            if not structural(ctx, d, dg["range"], "diagnostic:" + str(dg.get("code")), files):
+                continue
+            key = (dg.get("code"), str(dg["range"]), dg["message"])
+            if key in seen:
+                ctx.violation({"kind": "duplicate-diagnostic"}, {"diag": dg}, files=files)
+            seen.add(key)
+            if dg.get("code") == "undeclared-fixture":
+                token_match(ctx, d, dg["range"], names, "diagnostic:undeclared", files)
+                ctx.nontrivial(("diag_undeclared",))
+            else:
+                token_match(ctx, d, dg["range"], [dd["name_span"] | {"line": dd["line"]} for dd in d.m.defs if dd["name_span"]],
+                            "diagnostic:" + str(dg.get("code")), files)
+        # --- documentSymbol -------------------------------------------------------------------------
+        r = srv.document_symbol(p)
+        syms = r.get("result") or []
+        lst = [(s_["name"], str(s_["range"])) for s_ in syms]
+        if len(lst) != len(set(lst)):
+            ctx.violation({"kind": "duplicate-symbols"}, {"symbols": lst}, files=files)
+        for s_ in syms:
+            if structural(ctx, d, s_["range"], "documentSymbol.range", files) and \
+                    structural(ctx, d, s_["selectionRange"], "documentSymbol.selectionRange", files):
+                ctx.judged()
+                if not inside(s_["selectionRange"], s_["range"]):
+                    sl = s_["range"]["start"]["line"]
+                    if s_["range"]["end"]["line"] == sl and s_["range"]["end"]["character"] == 0 and ctx.known(KF_SYM_1LINE):
+                        pass
+                    else:
+                        ctx.violation({"kind": "selectionRange-outside-range", "what": "documentSymbol"}, {"symbol": s_}, files=files)
+                token_match(ctx, d, s_["selectionRange"], [dd["name_span"] | {"line": dd["line"]} for dd in d.m.defs if dd["name_span"]],
+                            "documentSymbol.selectionRange", files)
+        # --- codeLens ----------------------------------------------------------------------------------
+        r = srv.code_lens(p)
+        for l_ in (r.get("result") or []):
+            structural(ctx, d, l_["range"], "codeLens", files)
+            ctx.judged()
+            if l_["range"]["start"]["line"] + 1 not in def_lines[p]:
+                ctx.violation({"kind": "code-lens-not-on-definition-line"}, {"lens": l_}, files=files)
+        # --- inlay hints ---------------------------------------------------------------------------------
+        r = srv.inlay_hint(p)
+        for h in (r.get("result") or []):
+            pos = h["position"]
+            rr = {"start": pos, "end": pos}
+            if not structural(ctx, d, rr, "inlayHint.position", files):
+                continue
+            ends = []
+            for u in d.m.usages:
+                e_ = {"line": u["line"], "start_u16": u["end_u16"], "end_u16": u["end_u16"], "start_b": u["end_b"], "end_b": u["end_b"]}
+                if u.get("string"):
+                    # anchor after the string content; the literal-geometry finding applies to its end as well
+                    e_.update({"string": True, "plain_string": u.get("plain_string", True), "exact_span": u.get("exact_span", True),
+                               "node_start_b": u["node_end_b"] - 2, "node_end_b": u["node_end_b"], "node_end_line": u.get("node_end_line")})
+                ends.append(e_)
+            token_match(ctx, d, rr, ends, "inlayHint.position", files)
+            ctx.nontrivial(("inlay",))
+        # --- references / hierarchy from every definition and usage --------------------------------------
+        for dd in d.m.defs:
+            if not dd["name_span"]:
+                continue
+            col = dd["name_span"]["start_b"]     # cursor columns are interpreted by the server as it sees fit
+            refs_and_hierarchy(ctx, srv, d, docs, p, dd["line"] - 1, col, all_usage_spans, def_lines, files)
+        for u in d.m.usages[:12]:
+            if d.has_non_ascii_before(u["line"], u["start_b"]):
+                continue
+            r = srv.definition(p, u["line"] - 1, u["start_b"])
+            res = r.get("result")
+            if res:
+                res = res[0] if isinstance(res, list) else res
+                tp = uri_to_path(res["uri"])
+                ctx.judged()
+                if tp in docs:
+                    structural(ctx, docs[tp], res["range"], "definition.target", files)
+                    if res["range"]["start"]["line"] + 1 not in def_lines[tp]:
+                        ctx.violation({"kind": "definition-target-not-on-def-line"}, {"target": res}, files=files)
+            r = srv.implementation(p, u["line"] - 1, u["start_b"])
+            res = r.get("result")
+            if res:
+                res = res[0] if isinstance(res, list) else res
+                tp = uri_to_path(res["uri"])
+                ctx.judged()
+                if tp in docs:
+                    ok_lines = def_lines[tp] | {x["yield_line"] for x in docs[tp].m.defs if x["yield_line"]}
+                    if res["range"]["start"]["line"] + 1 not in ok_lines:
+                        ctx.violation({"kind": "implementation-target-not-on-def-or-yield-line"}, {"target": res}, files=files)
 
 
 def refs_and_hierarchy(ctx, srv, d, docs, p, line0, col, all_usage_spans, def_lines, files):
